@@ -13,7 +13,7 @@ T={
  "C08":("exploration","runtime monitoring: request/context/batch schedule model, harness callback module recording every callback, raw queue walks after every block, hostile responders and strangers"),
  "C09":("exploration","runtime monitoring: per-tx token registry/ledger probe (records, indexes, burn tally, bank supply, full balance sheet incl. module account) against a reference registry; hostile non-owners and re-issues, crafted owner addresses that splice the (owner, symbol) index key; chains born with 130 more tokens and the TotalBurn query compared with the sum of burns after every block"),
  "C10":("exploration","runtime monitoring: pure-function probe of LossLessSwap in exact integers over all 361 scale pairs; per-tx bank + harness-EVM ledger probes around ERC20 conversions with injected EVM faults (errors, reverts, no effect, off by one, off by a 64-bit word, wrong holder, lying balanceOf), fee-token swaps via a registry-configured keeper, EVM->native hook"),
- "C11":("fault_enumeration","runtime monitoring by differential replicas: a journaled all-modules history re-executed in separate processes (later wall-clock, on-disk DB with application close/reopen at block boundaries (every k-th block and after every block carrying a parameter update) incl. across process exit, other GOMAXPROCS/GOGC), byte comparison of app hashes, per-store KV digests, tx results and repeated genesis exports; host-clock straddle probes; -race build with concurrent query/simulate/checktx storm in the thorough tier"),
+ "C11":("fault_enumeration","runtime monitoring by differential replicas: a journaled all-modules history re-executed in separate processes (later wall-clock, on-disk DB with application close/reopen at block boundaries (every k-th block and after every block carrying a parameter update) incl. across process exit, other GOMAXPROCS/GOGC), byte comparison of app hashes, per-store KV digests, tx results (log texts included) and repeated genesis exports; host-clock straddle probes; -race build with concurrent query/simulate/checktx storm in the thorough tier"),
  "C12":("exploration","runtime monitoring by differential applications: checkpoints of the all-modules history are exported and re-imported into fresh applications (full as-is, per-module isolated, the random section alone, zero-height after the modules' preparation steps); acceptance, export fixpoint per module section and byte comparison of a fixed list of gRPC queries routed on both applications at equal height/time; behavioural differential: a battery of ordinary messages derived from the exported state is carried out on dropped branches of the source and of the imported state and every outcome and every query afterwards is compared; raw walks of the restored time queues and secondary indexes"),
  "C13":("exploration","runtime monitoring: the application's begin/end blockers run inside recover() wrappers on the all-modules chain (all workloads incl. parameter changes, bursts of 100+ items due at one height, time steps from 1 s to days, initial heights placed before the carry boundaries of the height-keyed queues); raw walks of the four time-queue families against the object stores after every block, and of the farm queue after every transaction (pools destroyed in the block they fall due); four more cases per tier run the dedicated service / htlc / farm / random directors (scripted kills, restarts, coincident expiries) and keep their queue-and-due-height relations only"),
  "C14":("exploration","runtime monitoring: per-tx NFT state probe (all classes, tokens, owners, supplies, owner listings via the module's queries) against a reference ownership map, hostile actors"),
